@@ -28,6 +28,7 @@ def run(tier):
         wants = []
         lines = rg.gen_valid(rng, o, 3000 if quick else 40000, wants)
         lines += rg.gen_escape_offsets(o, 70 if quick else 140)
+        lines += rg.gen_duplicate_keys(rng, o)      # every ordered pair of value kinds under a repeated key
         targets = [(l, bins[l]) for l in (("def", "arduino", "g2x1s1") if label == "def" else ("all",))]
         rk.run_feed(chk, wd, f"valid-{label}", lines, dict(enumerate(wants)), targets)
     # bounded-exhaustive token strings (includes every short valid text)
